@@ -1,10 +1,11 @@
 From Coq Require Import Reals.
 From Flocq Require Import Core IEEE754.BinarySingleNaN.
-From VP Require Import Base.Tactics Cmp.F64 Cmp.Arms Cmp.Gen_EvalArms Cmp.Model Cmp.Proofs_C08 Cmp.Props_C08.
+From VP Require Import Base.Tactics Cmp.F64 Cmp.Arms Cmp.Gen_EvalArms Cmp.Model Cmp.Classes Cmp.Proofs_C08 Cmp.Props_C08.
 
 Check (C08_total :
   forall (f : fn) (o : cop) (l r : value),
     In o [OLt; OLe; OGt; OGe] -> In (ty_of l) [TInt; TFloat] -> In (ty_of r) [TInt; TFloat] ->
+    ~ Known_C08_binop_mixed_le_ge f o l r ->
     exists b, eval_cmp f o l r = Some (VBool b)).
 Print Assumptions C08_total.
 Print unit. (* ends the axiom block in the transcript *)
@@ -12,6 +13,7 @@ Print unit. (* ends the axiom block in the transcript *)
 Check (C08_order :
   forall (f : fn) (o : cop) (r : rel) (a b : value),
     rel_of_cop o = Some r -> finite_num a -> finite_num b ->
+    ~ Known_C08_binop_mixed_le_ge f o a b ->
     exists t, eval_cmp f o a b = Some (VBool t) /\ (t = true <-> R_rel r (num_val a) (num_val b))).
 Print Assumptions C08_order.
 Print unit. (* ends the axiom block in the transcript *)
@@ -25,6 +27,7 @@ Print unit. (* ends the axiom block in the transcript *)
 
 Check (C08_ge_iff :
   forall (f : fn) (a b : value), finite_num a -> finite_num b ->
+    ~ Known_C08_binop_mixed_le_ge f OGe a b ->
     (eval_cmp f OGe a b = Some (VBool true) <->
      eval_cmp f OGt a b = Some (VBool true) \/ num_val a = num_val b)).
 Print Assumptions C08_ge_iff.
@@ -36,6 +39,20 @@ Check (C08_cmp_int_float_exact :
 Print Assumptions C08_cmp_int_float_exact.
 Print unit. (* ends the axiom block in the transcript *)
 
+Check (C08_binop_mixed_le_ge_refuted :
+  exists (f : fn) (o : cop) (a b : value),
+    Known_C08_binop_mixed_le_ge f o a b /\ In o [OLt; OLe; OGt; OGe] /\ finite_num a /\ finite_num b /\
+    ~ (exists t, eval_cmp f o a b = Some (VBool t))).
+Print Assumptions C08_binop_mixed_le_ge_refuted.
+Print unit. (* ends the axiom block in the transcript *)
+
+Check (C08_expr_never_known :
+  forall (o : cop) (l r : value), ~ Known_C08_binop_mixed_le_ge FExpr o l r).
+Print Assumptions C08_expr_never_known.
+Print unit. (* ends the axiom block in the transcript *)
+
+Print Known_C08_binop_mixed_le_ge.
+Print binop_mixed_le_ge.
 (* the vocabulary of the statements, so that the pins cannot be weakened silently *)
 Print num_val.
 Print finite_num.
